@@ -8,6 +8,7 @@ CONSTANTS
   MaxPert = 2
   Rounds = 26
   OwnConds <- BBoth
+  ScaleRevs <- BBoth
 INVARIANTS C07_OneMove C07_HookOrder C07_Gate C07_OldStay C07_NonRevNow C08_Linear C07_StuckWaits
 PROPERTIES C01_QuietWhenDone
 CHECK_DEADLOCK FALSE
